@@ -101,7 +101,9 @@ class SafeLearner(Learner):
             #now do a small "test" to determine the major order.
             #n_cols will always be >= 2 so we know we can distinguish
             class Batch(list): is_batch=True
-            pred   = predictor(Batch([context[0]]),Batch([actions[0]]))
+            #an interaction without a context gives a context that is not a batch (None for every row)
+            first  = lambda arg: Batch([arg[0]]) if is_batch(arg) else arg
+            pred   = predictor(first(context),first(actions))
             n_rows = 1
 
         return 'row' if len(pred) == n_rows else 'col'
